@@ -1,8 +1,11 @@
-"""C13 Balance: only the must-rebalance clause is statically decided (thin claim, see DESIGN.md)."""
+"""C13 Balance: must-rebalance (term flow) and the fix-up / retracing code itself (shape analysis by materialisation:
+each fix-up function is shown to re-establish the red-black / AVL invariant from its loop invariant, for every local
+heap the invariant admits)."""
 from plint import symx
 from plint.symx import C
 from plint.ir import line
 from plint.units import AnalysisBroken
+from plint import shape, treeshape
 from rules.treecommon import TreeRun, variant_roles, field_writers
 
 BAL_FIELDS = {"ptree-rb.c": "color", "ptree-avl.c": "balance_factor"}
@@ -12,8 +15,14 @@ def run(prog, rep):
     rep.rule("C13.1", "must-rebalance: in the red-black and AVL variants every insertion path that links a new node, and every removal path, passes through a "
                       "helper that (transitively) rewrites colours / balance factors before the structural change is finished: insert after linking the node, AVL remove "
                       "before the node is freed, RB remove on the childless-black path before the node is unlinked")
-    rep.note("C13 claims only C13.1. The height and colour invariants themselves and the comparison bounds are NOT decided (shape + arithmetic over unbounded trees); "
-             "a left/right mirror comparison of the fix-up code was rejected because it fires on one-sided behaviour-preserving refactors.")
+    rep.rule("C13.2", "red-black fix-ups (shape analysis): from the loop invariant (insert: a red node whose subtree is valid; remove: a subtree one black level short) "
+                      "every path of the fix-up function, over every local heap the red-black invariant admits, either returns with equal black heights, no red node "
+                      "with a red child, the in-order sequence, the parent links and *root intact, or continues one level up with the invariant re-established")
+    rep.rule("C13.3", "AVL retracing (shape analysis): from the loop invariant (the subtree at the node grew / shrank by one, ancestors still hold the old factors) every "
+                      "path of the retracing function and the rotations it calls either returns with every stored balance factor equal to the height difference, "
+                      "|difference| <= 1 and the old height restored, or continues one level up with the invariant re-established")
+    rep.note("C13.2/C13.3 prove the inductive step of the balance invariant for the fix-up functions (induction over the loop, all shapes, symbolic heights). "
+             "The numeric comparison bounds (1.44*log2, 2*log2) follow from the invariants by the textbook argument and are not re-derived.")
     n = 0
     for un, fld in sorted(BAL_FIELDS.items()):
         u = prog.unit(un)
@@ -98,6 +107,112 @@ def run(prog, rep):
         n += 1
     rep.floor("C13.1", 4)
 
+    # ---- C13.2 / C13.3: shape analysis of the fix-up functions ----------------------------------------------
+    for un, fld in sorted(BAL_FIELDS.items()):
+        u = prog.unit(un)
+        tag = "rb" if "rb" in un else "avl"
+        rule = "C13.2" if tag == "rb" else "C13.3"
+        fw = field_writers(u)
+        fixers = set(f for f, w in fw.items() if fld in w and {"left", "right"} <= w and f.startswith("pp_"))
+        for mode in ("insert", "remove"):
+            top = u.fn("p_tree_%s_%s" % (tag, mode))
+            called = sorted(set(c.get("callee") for (b, i, c) in top.calls() if c.get("callee") in fixers))
+            if not called:
+                rep.ob(rule, top, "%s-fixup" % mode, False, "p_tree_%s_%s calls no helper that rewrites %s and rotates: nothing restores the balance invariant" % (tag, mode, fld), top.loc[0])
+                continue
+            if len(called) != 1:
+                raise AnalysisBroken("%s: p_tree_%s_%s calls %d fix-up helpers (%s)" % (un, tag, mode, len(called), called))
+            fx = u.fn(called[0])
+            if len(fx.params) != 2:
+                raise AnalysisBroken("%s: %s does not take (node, root)" % (un, fx.name))
+            if tag == "rb":
+                RED, BLACK = u.enum_value("P_TREE_RB_COLOR_RED"), u.enum_value("P_TREE_RB_COLOR_BLACK")
+                if RED is None or BLACK is None or RED == BLACK:
+                    raise AnalysisBroken("%s: colour constants not found" % un)
+                mk = lambda mode=mode, fx=fx: treeshape.RBDomain(mode, RED, BLACK, fx.param_names())
+            else:
+                mk = lambda mode=mode, fx=fx: treeshape.AVLDomain(mode, fx.param_names())
+            stats, viol = shape.explore(u, fx, mk)
+            okp = not viol and stats["returns"] > 0 and stats["backedges"] > 0
+            if viol:
+                v = viol[0]
+                msg = "%s on the path through lines %s with the local shape {%s} (%d of %d paths fail)" % (
+                    v[0], ", ".join(str(x) for x in v[3][-8:]), "; ".join(v[2]), len(viol), stats["paths"])
+                where = v[1]
+            else:
+                msg = "%d paths over every admitted local shape: %d return with the %s invariant restored, %d continue one level up with the loop invariant re-established (%d shape choices were inconsistent with the invariant)" % (
+                    stats["paths"], stats["returns"], "red-black" if tag == "rb" else "AVL", stats["backedges"], stats["infeasible"])
+                where = fx.loc[0]
+                if not okp:
+                    msg = "the fix-up has %d returning and %d continuing paths: the loop structure is not the one analysed" % (stats["returns"], stats["backedges"])
+            rep.ob(rule, fx, "%s-fixup" % mode, okp, msg, where)
+    rep.floor("C13.2", 2)
+    rep.floor("C13.3", 2)
+
+    # ---- C13.4: the callers establish the fix-ups' entry invariant, and the paths around them keep the balance ---------
+    rep.rule("C13.4", "entry conditions: a new node is linked with NULL children, parent set and colour RED / factor 0 before its fix-up; the AVL retrace is started "
+                      "at the leaf before it is unlinked or at the child after it was relinked; a red-black node removed together with its only child paints that child black")
+    for un, fld in sorted(BAL_FIELDS.items()):
+        u = prog.unit(un)
+        tag = "rb" if "rb" in un else "avl"
+        want = C(u.enum_value("P_TREE_RB_COLOR_RED")) if tag == "rb" else C(0)
+        fn = u.fn("p_tree_%s_insert" % tag)
+        r = TreeRun(fn, "insert", variant_roles(fn)).run()
+        ok, msg, where = True, "", fn.loc[0]
+        nnew = 0
+        zeroing = all(c.get("callee") == "p_malloc0" for (b, i, c) in fn.calls() if c.get("callee") in ("p_malloc", "p_malloc0"))
+        for (st, stmt, cur) in r.rets:
+            al = st.tags.get("alloc")
+            if al is None:
+                continue
+            nnew += 1
+            stores = st.tags.get("stores", ())
+            val = [s_[1] for s_ in stores if s_[0] == ("fld", al, fld)]
+            if not val or val[-1] != want:
+                ok, msg, where = False, "line %d: the new node enters its fix-up with %s = %s, the fix-up's invariant needs %s" % (
+                    line(stmt), fld, symx.show(val[-1]) if val else "an unset value", "RED" if tag == "rb" else "0"), line(stmt)
+            for side in ("left", "right"):
+                sv = [s_[1] for s_ in stores if s_[0][0] == "fld" and s_[0][2] == side and (s_[0][1] == al or s_[0][1] == ("fld", al, "base"))]
+                if (sv and sv[-1] != C(0)) or (not sv and not zeroing):
+                    ok, msg, where = False, "line %d: the new node's %s link is not NULL when it is rebalanced" % (line(stmt), side), line(stmt)
+        rep.ob("C13.4", fn, "insert-entry", ok and nnew > 0, "the new node is %s with NULL children when the fix-up starts" % ("RED" if tag == "rb" else "balanced (factor 0)")
+               if ok and nnew else (msg or "no new-node path"), where)
+
+        fn = u.fn("p_tree_%s_remove" % tag)
+        r = TreeRun(fn, "remove", variant_roles(fn)).run()
+        ok, msg, where = True, "", fn.loc[0]
+        nchild = 0
+        fixers = set(f for f, w in field_writers(u).items() if fld in w and {"left", "right"} <= w and f.startswith("pp_"))
+        for (st, stmt, cur) in r.rets:
+            if st.ret != C(1):
+                continue
+            X = st.tags.get("found")
+            stores = st.tags.get("stores", ())
+            # the child that takes the removed node's place: the node whose parent link is rewritten
+            ch = [s_[0][1] for s_ in stores if s_[0][0] == "fld" and s_[0][2] == "parent"]
+            hs = [h for h in st.tags.get("helpers", ()) if h[0] in fixers]
+            if tag == "avl":
+                for h in hs:
+                    arg = h[1][0] if h[1] else None
+                    if ch and arg == ch[-1]:
+                        continue                     # retrace from the relinked child
+                    if not ch and h[4] == 0:
+                        continue                     # retrace from the leaf, before it is unlinked
+                    ok, msg, where = False, "line %d: the AVL retrace starts at %s, which is neither the still linked leaf nor the relinked child" % (h[2], symx.show(arg)), h[2]
+            else:
+                if ch:
+                    nchild += 1
+                    col = [s_[1] for s_ in stores if s_[0] == ("fld", ch[-1], "color")]
+                    red_removed = any(c_[0] == "cmp" and isinstance(c_[2], tuple) and c_[2][0] == "call" and "black" in str(c_[2][1]) and
+                                      ((c_[1] == "!=" and not truth) or (c_[1] == "==" and truth)) for (c_, truth) in st.conds)
+                    if not red_removed and (not col or col[-1] != C(u.enum_value("P_TREE_RB_COLOR_BLACK"))):
+                        ok, msg, where = False, "line %d: a black node is removed together with its only child and the child is not painted black: that side loses a black level" % line(stmt), line(stmt)
+        if tag == "rb":
+            ok = ok and nchild > 0
+        rep.ob("C13.4", fn, "remove-entry", ok, ("the retrace starts at the leaf before the unlink or at the relinked child" if tag == "avl" else
+               "%d one-child removal state(s): the child that replaces a black node is painted black" % nchild) if ok else (msg or "no one-child removal path found"), where)
+    rep.floor("C13.4", 4)
+
 
 def leaf_path(st):
     """The path took the `child == NULL` branch: some condition says a loaded child link is NULL."""
@@ -118,6 +233,79 @@ def link_base(r):
 RENAME_LOCALS = ['src/ptree-rb.c', 'src/ptree-avl.c']
 
 SELFTEST = [
+    # ---- C13.4 entry conditions ----
+    dict(id="rb-new-node-black", file="src/ptree-rb.c", expect="C13.4",
+         old="\t((PTreeRBNode *) *cur_node)->color  = P_TREE_RB_COLOR_RED;", new="\t((PTreeRBNode *) *cur_node)->color  = P_TREE_RB_COLOR_BLACK;"),
+    dict(id="rb-remove-child-not-repainted", file="src/ptree-rb.c", expect="C13.4",
+         old="\t\tif (pp_tree_rb_is_black ((PTreeRBNode *) cur_node) == TRUE)\n\t\t\t\t((PTreeRBNode *) child_node)->color = P_TREE_RB_COLOR_BLACK;\n", new=""),
+    dict(id="avl-new-node-factor-one", file="src/ptree-avl.c", expect="C13.4",
+         old="\t((PTreeAVLNode *) *cur_node)->balance_factor = 0;", new="\t((PTreeAVLNode *) *cur_node)->balance_factor = 1;"),
+    dict(id="avl-retrace-from-removed-node", file="src/ptree-avl.c", expect="C13.4",
+         old="\t\tpp_tree_avl_balance_remove ((PTreeAVLNode *) child_node, root_node);", new="\t\tpp_tree_avl_balance_remove ((PTreeAVLNode *) cur_node, root_node);"),
+    # ---- C13.2 red-black fix-ups ----
+    dict(id="rb-remove-fixup-stops-below-root", file="src/ptree-rb.c", expect="C13.2",
+         old="\t\tif (P_UNLIKELY (node->parent == NULL))\n\t\t\tbreak;\n\n\t\tsibling = pp_tree_rb_get_sibling (node);",
+         new="\t\tif (P_UNLIKELY (node->parent == NULL || node->parent->parent == NULL))\n\t\t\tbreak;\n\n\t\tsibling = pp_tree_rb_get_sibling (node);"),
+    dict(id="rb-remove-case3-sibling-not-recoloured", file="src/ptree-rb.c", expect="C13.2",
+         old="\t\t\tsibling->color = P_TREE_RB_COLOR_RED;\n\n\t\t\tif (pp_tree_rb_is_black (node->parent) == TRUE) {",
+         new="\t\t\tif (pp_tree_rb_is_black (node->parent) == TRUE) {"),
+    dict(id="rb-remove-case5-sibling-black", file="src/ptree-rb.c", expect="C13.2",
+         old="\t\tsibling->color      = node->parent->color;", new="\t\tsibling->color      = P_TREE_RB_COLOR_BLACK;"),
+    dict(id="rb-remove-case2-rotations-swapped", file="src/ptree-rb.c", expect="C13.2",
+         old="\t\t\tif ((PTreeBaseNode *) node == node->parent->base.left)\n\t\t\t\tpp_tree_rb_rotate_left (node->parent, root);\n\t\t\telse\n\t\t\t\tpp_tree_rb_rotate_right (node->parent, root);\n\n\t\t\tsibling = pp_tree_rb_get_sibling (node);",
+         new="\t\t\tif ((PTreeBaseNode *) node == node->parent->base.left)\n\t\t\t\tpp_tree_rb_rotate_right (node->parent, root);\n\t\t\telse\n\t\t\t\tpp_tree_rb_rotate_left (node->parent, root);\n\n\t\t\tsibling = pp_tree_rb_get_sibling (node);"),
+    dict(id="rb-remove-case3-red-parent-continues", file="src/ptree-rb.c", expect="C13.2",
+         old="\t\t\t\tnode->parent->color = P_TREE_RB_COLOR_BLACK;\n\t\t\t\tbreak;\n\t\t\t}", new="\t\t\t\tnode = node->parent;\n\t\t\t\tcontinue;\n\t\t\t}"),
+    dict(id="rb-remove-case4-far-nephew-not-black", file="src/ptree-rb.c", expect="C13.2",
+         old="\t\t\t((PTreeRBNode *) sibling->base.right)->color = P_TREE_RB_COLOR_BLACK;\n\t\t\tpp_tree_rb_rotate_left (node->parent, root);",
+         new="\t\t\tpp_tree_rb_rotate_left (node->parent, root);"),
+    dict(id="rb-insert-case3-uncle-not-black", file="src/ptree-rb.c", expect="C13.2",
+         old="\t\t\tuncle->color        = P_TREE_RB_COLOR_BLACK;\n", new=""),
+    dict(id="rb-insert-root-left-red", file="src/ptree-rb.c", expect="C13.2",
+         old="\t\tif (P_UNLIKELY (node->parent == NULL)) {\n\t\t\tnode->color = P_TREE_RB_COLOR_BLACK;\n\t\t\tbreak;\n\t\t}", new="\t\tif (P_UNLIKELY (node->parent == NULL))\n\t\t\tbreak;"),
+    dict(id="rb-insert-case3-gparent-not-red", file="src/ptree-rb.c", expect="C13.2",
+         old="\t\t\tgparent->color      = P_TREE_RB_COLOR_RED;\n\n\t\t\t/* Continue iteratively from gparent */", new="\t\t\t/* Continue iteratively from gparent */"),
+    dict(id="rb-insert-case4-inner-rotation-dropped", file="src/ptree-rb.c", expect="C13.2",
+         old="\t\t\t\tpp_tree_rb_rotate_left (node->parent, root);\n\n\t\t\t\tnode = (PTreeRBNode *) node->base.left;\n", new=""),
+    dict(id="rb-rotate-left-inner-parent-link", file="src/ptree-rb.c", expect="C13.2",
+         old="\tif (tmp_node->left != NULL)\n\t\t((PTreeRBNode *) tmp_node->left)->parent = node;\n", new=""),
+    dict(id="rb-rotate-root-not-updated", file="src/ptree-rb.c", expect="C13.2", count=2,
+         old="\tif (P_UNLIKELY (((PTreeRBNode *) tmp_node)->parent == NULL))\n\t\t*root = tmp_node;\n", new=""),
+    dict(id="rb-remove-case2-colour-order-neutral", file="src/ptree-rb.c", expect=None,
+         old="\t\t\tnode->parent->color = P_TREE_RB_COLOR_RED;\n\t\t\tsibling->color      = P_TREE_RB_COLOR_BLACK;",
+         new="\t\t\tsibling->color      = P_TREE_RB_COLOR_BLACK;\n\t\t\tnode->parent->color = P_TREE_RB_COLOR_RED;"),
+    dict(id="rb-insert-parent-red-test-neutral", file="src/ptree-rb.c", expect=None,
+         old="\t\tif (pp_tree_rb_is_black (node->parent) == TRUE)\n\t\t\tbreak;", new="\t\tif (pp_tree_rb_is_red (node->parent) == FALSE)\n\t\t\tbreak;"),
+    dict(id="rb-remove-case5-rotate-before-recolour-neutral", file="src/ptree-rb.c", expect=None,
+         old="\t\tif ((PTreeBaseNode *) node == node->parent->base.left) {\n\t\t\t((PTreeRBNode *) sibling->base.right)->color = P_TREE_RB_COLOR_BLACK;\n\t\t\tpp_tree_rb_rotate_left (node->parent, root);",
+         new="\t\tif ((PTreeBaseNode *) node == node->parent->base.left) {\n\t\t\tpp_tree_rb_rotate_left (node->parent, root);\n\t\t\t((PTreeRBNode *) sibling->base.right)->color = P_TREE_RB_COLOR_BLACK;"),
+    # ---- C13.3 AVL retracing ----
+    dict(id="avl-rotate-left-factor-sign", file="src/ptree-avl.c", expect="C13.3",
+         old="\t((PTreeAVLNode *) node)->balance_factor +=1;", new="\t((PTreeAVLNode *) node)->balance_factor -=1;"),
+    dict(id="avl-double-rotation-factors-swapped", file="src/ptree-avl.c", expect="C13.3", count=2,
+         old="\tif (tmp_node->balance_factor == 1) {\n\t\t((PTreeAVLNode *) tmp_node->base.left)->balance_factor  = 0;\n\t\t((PTreeAVLNode *) tmp_node->base.right)->balance_factor = -1;",
+         new="\tif (tmp_node->balance_factor == 1) {\n\t\t((PTreeAVLNode *) tmp_node->base.left)->balance_factor  = -1;\n\t\t((PTreeAVLNode *) tmp_node->base.right)->balance_factor = 0;"),
+    dict(id="avl-remove-continues-after-neutral-rotation", file="src/ptree-avl.c", expect="C13.3", count=2,
+         old="\t\t\t\tif (sibling_balance == 0)\n\t\t\t\t\tbreak;\n", new=""),
+    dict(id="avl-remove-always-stops-after-rotation", file="src/ptree-avl.c", expect="C13.3", count=2,
+         old="\t\t\t\tif (sibling_balance == 0)\n\t\t\t\t\tbreak;\n", new="\t\t\t\tbreak;\n"),
+    dict(id="avl-insert-absorbed-growth-continues", file="src/ptree-avl.c", expect="C13.3",
+         old="\t\t\t\t/* Case 3: Increase parent balance factor */\n\t\t\t\tparent->balance_factor = 0;\n\t\t\t\tbreak;", new="\t\t\t\t/* Case 3: Increase parent balance factor */\n\t\t\t\tparent->balance_factor = 0;"),
+    dict(id="avl-insert-case4-wrong-sign", file="src/ptree-avl.c", expect="C13.3",
+         old="\t\t\t\t/* Case 4: Increase parent balance factor */\n\t\t\t\tparent->balance_factor = 1;", new="\t\t\t\t/* Case 4: Increase parent balance factor */\n\t\t\t\tparent->balance_factor = -1;"),
+    dict(id="avl-insert-wrong-rotation-chosen", file="src/ptree-avl.c", expect="C13.3",
+         old="\t\t\t\tif (node->balance_factor == -1)\n\t\t\t\t\t/* Case 1: Left-right rotate", new="\t\t\t\tif (node->balance_factor == 1)\n\t\t\t\t\t/* Case 1: Left-right rotate"),
+    dict(id="avl-remove-case3-continues", file="src/ptree-avl.c", expect="C13.3",
+         old="\t\t\t\t/* Case 3 */\n\t\t\t\tparent->balance_factor = -1;\n\t\t\t\tbreak;", new="\t\t\t\t/* Case 3 */\n\t\t\t\tparent->balance_factor = -1;"),
+    dict(id="avl-remove-case4-stops", file="src/ptree-avl.c", expect="C13.3",
+         old="\t\t\t} else\n\t\t\t\t/* Case 4 */\n\t\t\t\tparent->balance_factor = 0;\n\t\t} else {", new="\t\t\t} else {\n\t\t\t\t/* Case 4 */\n\t\t\t\tparent->balance_factor = 0;\n\t\t\t\tbreak;\n\t\t\t}\n\t\t} else {"),
+    dict(id="avl-rotate-right-inner-parent-link", file="src/ptree-avl.c", expect="C13.3",
+         old="\tif (node->base.right != NULL)\n\t\t((PTreeAVLNode *) node->base.right)->parent = (PTreeAVLNode *) node->parent;\n", new=""),
+    dict(id="avl-rotate-left-root-not-updated", file="src/ptree-avl.c", expect="C13.3",
+         old="\t\telse\n\t\t\tnode->parent->base.right = (PTreeBaseNode *) node;\n\t} else\n\t\t*root = (PTreeBaseNode *) node;\n\n\t/* Restore balance factor */\n\t((PTreeAVLNode *) node)->balance_factor +=1;",
+         new="\t\telse\n\t\t\tnode->parent->base.right = (PTreeBaseNode *) node;\n\t}\n\n\t/* Restore balance factor */\n\t((PTreeAVLNode *) node)->balance_factor +=1;"),
+    dict(id="avl-insert-step-up-via-local-neutral", file="src/ptree-avl.c", expect=None,
+         old="\t\t\t\tparent->balance_factor = -1;\n\t\t}\n\n\t\tnode = node->parent;", new="\t\t\t\tparent->balance_factor = -1;\n\t\t}\n\n\t\tnode = parent;"),
     dict(id="rb-insert-no-balance", file="src/ptree-rb.c", expect="C13.1",
          old="\t/* Balance the tree */\n\tpp_tree_rb_balance_insert ((PTreeRBNode *) *cur_node, root_node);\n", new=""),
     dict(id="avl-insert-no-balance", file="src/ptree-avl.c", expect="C13.1",
